@@ -105,7 +105,7 @@ C19Fails(vals, C, r) ==
 BaseOf(res, e) == res[Min({ j \in 1..e : res[j].alg = res[e].alg })]
 C07Fails(vals, C, res, e) ==
    LET r == res[e]   b == BaseOf(res, e)
-       named == r.fmt \in {"dict", "valueof"}
+       named == r.fmt \in {"dict", "valueof", "falsydict", "emptystr", "iddict", "npscalardict"}
    IN IF r.out # b.out THEN <<"C07.outcome_differs_between_formats:" \o b.out \o "/" \o r.out>>
       ELSE IF r.out # "ret" THEN <<>>
       ELSE (IF ~r.exact \/ ~b.exact \/ ~SameBag(r.sums, b.sums) THEN <<"C07.sums_differ_between_formats">> ELSE <<>>)
